@@ -188,21 +188,22 @@ func (s *server) completion(_ context.Context, params lsp.CompletionParams) (any
 func (s *server) updateDocument(conn *jsonrpc2.Conn, uri lsp.DocumentURI, code string) {
 	tree, err := parse.Parse(parse.Source{Name: string(uri), Code: code}, parse.Config{})
 	s.documents[uri] = document{code, tree, err}
-	go func() {
-		// Convert the parse error to lsp.Diagnostic objects and publish them.
-		entries := parse.UnpackErrors(err)
-		diags := make([]lsp.Diagnostic, len(entries))
-		for i, err := range entries {
-			diags[i] = lsp.Diagnostic{
-				Range:    lspRangeFromRange(code, err),
-				Severity: lsp.DSError,
-				Source:   "parse",
-				Message:  err.Message,
-			}
+	// Convert the parse error to lsp.Diagnostic objects and publish them. This
+	// is done synchronously (handlers are called one at a time), so that the
+	// diagnostics of successive versions of a document reach the client in
+	// order and the last one published is that of the latest version.
+	entries := parse.UnpackErrors(err)
+	diags := make([]lsp.Diagnostic, len(entries))
+	for i, err := range entries {
+		diags[i] = lsp.Diagnostic{
+			Range:    lspRangeFromRange(code, err),
+			Severity: lsp.DSError,
+			Source:   "parse",
+			Message:  err.Message,
 		}
-		conn.Notify(context.Background(), "textDocument/publishDiagnostics",
-			lsp.PublishDiagnosticsParams{URI: uri, Diagnostics: diags})
-	}()
+	}
+	conn.Notify(context.Background(), "textDocument/publishDiagnostics",
+		lsp.PublishDiagnosticsParams{URI: uri, Diagnostics: diags})
 }
 
 func unknownDocument(uri lsp.DocumentURI) error {
